@@ -186,6 +186,7 @@ def generate(rng, index, tier):
         horizon = max(horizon, interval + 2.0)
     return {
         'slow_close': rng.choice([0.05, 0.5, 2.0]) if rng.random() < 0.25 else 0,
+        'slow_removed': rng.choice([0.05, 0.5, 2.0]) if rng.random() < 0.2 else 0,
         'shape': 'search', 'seed': rng.getrandbits(32), 'net': net, 'precise': precise,
         'settings': {'request_timeout': request_timeout, 'wishlist_timeout': wishlist_timeout,
                      'store': rng.random() < 0.8},
@@ -338,6 +339,16 @@ def _directed():
                 {'id': 1, 'op': 'search', 'kind': kind, 'when': ['t0', 0.5]},
                 _reply(2, ['req', 1], ['deadline', ['req', 1], -0.2]),
                 _reply(3, ['req', 1], ['deadline', ['req', 1], -0.1], 1)]))
+    # an application listener that is slow when a removal is reported: a reply / a user removal lands while it sleeps
+    for kind in ('net', 'room'):
+        out.append(dict(base, settings=S2, slow_removed=0.5, ops=[
+            {'id': 1, 'op': 'search', 'kind': kind, 'when': ['t0', 0.5]},
+            _reply(2, ['req', 1], ['deadline', ['req', 1], 0.2]),
+            _reply(3, ['req', 1], ['deadline', ['req', 1], 0.7], 1)]))
+        out.append(dict(base, settings=S2, slow_removed=0.5, ops=[
+            {'id': 1, 'op': 'search', 'kind': kind, 'when': ['t0', 0.5]},
+            {'id': 2, 'op': 'remove', 'target': ['req', 1], 'when': ['deadline', ['req', 1], 0.2], 'hops': 0, 'by': 'object'},
+            _reply(3, ['req', 1], ['deadline', ['req', 1], 0.3])]))
     # unknown tickets while another request is live; a reply for a ticket that is only issued later
     out.append(dict(base, settings=S2, ops=[
         {'id': 1, 'op': 'search', 'kind': 'net', 'when': ['t0', 0.5]},
@@ -662,6 +673,14 @@ def _run_search(world: World, plan):
                 await asyncio.sleep(plan['slow_close'])
         world.keep_alive.append(slow_close)
         client.events.register(ConnectionStateChangedEvent, slow_close)
+
+    if plan.get('slow_removed'):
+        # an application listener that takes its time when a request is reported removed
+        async def slow_removed(event):
+            world.net.fired['slow_removed_listener'] += 1
+            await asyncio.sleep(plan['slow_removed'])
+        world.keep_alive.append(slow_removed)
+        client.events.register(SearchRequestRemovedEvent, slow_removed, priority=2000)
 
     # ------------------------------------------------------------------ symbolic instants
     async def resolve_when(spec):
